@@ -154,3 +154,25 @@ package datacoding
 //@   ensures (int(s) == 0 || int(s) == 99) ==> int(result) == 0
 //@   ensures (int(s) == 1 || int(s) == 3 || int(s) == 8) ==> int(result) == int(s)
 //@   ensures !(int(s) == 0 || int(s) == 99 || int(s) == 1 || int(s) == 3 || int(s) == 8) ==> int(result) == 255
+
+// ---------------------------------------------------------------- coding priorities (C09)
+// Smaller value = preferred on a tie. The tables are filled by init(); the contracts pin every entry, and the lemma
+// shows the priorities of the valid codings of one protocol are pairwise distinct (so the batch encoder's comparator is
+// a strict total order on candidates, not just a preorder).
+//@ pure func cmppprio(c int) int = c == 9 ? 2 : (c == 8 ? 4 : (c == 15 ? 8 : (c == 0 ? 16 : 0)))
+//@ pure func smppprio(c int) int = c == 8 ? 2 : (c == 0 ? 4 : (c == 3 ? 8 : (c == 1 ? 16 : (c == 99 ? 32 : 0))))
+
+//@ func (c CMPPDataCoding) Priority
+//@   props C09
+//@   ensures [C09 table] result == cmppprio(int(c))
+
+//@ func (s SMPPDataCoding) Priority
+//@   props C09
+//@   ensures [C09 table] result == smppprio(int(s))
+
+//@ lemma priorities_distinct(a int, b int)
+//@   props C09
+//@   theory none
+//@   requires a != b
+//@   ensures [C09 cmpp] (a == 0 || a == 8 || a == 9 || a == 15) && (b == 0 || b == 8 || b == 9 || b == 15) ==> cmppprio(a) != cmppprio(b) && cmppprio(a) > 0
+//@   ensures [C09 smpp] (a == 0 || a == 1 || a == 3 || a == 8 || a == 99) && (b == 0 || b == 1 || b == 3 || b == 8 || b == 99) ==> smppprio(a) != smppprio(b) && smppprio(a) > 0
